@@ -79,6 +79,7 @@ const (
 	vpC04FaultCloseAt     = 1 // write wire[:Off] then close
 	vpC04FaultStall       = 2 // never answer: hold the request StallMs, then close
 	vpC04FaultCloseBefore = 3 // close without writing a byte
+	vpC04FaultHalfStall   = 4 // write wire[:Off], then hold StallMs, then close
 )
 
 // vpC04Resp is what the origin answers for one request id (identical for every attempt).
@@ -368,8 +369,10 @@ type vpC04Origin struct {
 	dials      int
 	violations []string
 
-	stop  chan struct{}
-	drain atomic.Bool // answer everything at once and well-formed (teardown / quiescing)
+	stop    chan struct{}
+	drain   atomic.Bool // answer everything at once and well-formed (teardown / quiescing)
+	drainCh chan struct{}
+	drainMu sync.Once
 	wg    sync.WaitGroup
 
 	// strictSeq: HostClient never pipelines, so a request arriving on a connection while the
@@ -391,7 +394,17 @@ func vpC04NewOrigin(h *vpC04Hist) *vpC04Origin {
 		attempts: map[int]int{},
 		seen:     map[int]int{},
 		stop:     make(chan struct{}),
+		drainCh:  make(chan struct{}),
 	}
+}
+
+// startDrain switches the origin to "answer everything at once, no faults" and aborts every
+// stall or delay in progress (their connections are closed).
+func (o *vpC04Origin) startDrain() {
+	o.drainMu.Do(func() {
+		o.drain.Store(true)
+		close(o.drainCh)
+	})
 }
 
 func (o *vpC04Origin) register(p *vpC04Plan) {
@@ -511,6 +524,8 @@ func (o *vpC04Origin) wait(d time.Duration, gone <-chan struct{}) bool {
 		return false
 	case <-o.stop:
 		return false
+	case <-o.drainCh:
+		return false
 	}
 }
 
@@ -592,7 +607,7 @@ func (o *vpC04Origin) respond(s *vpC04SrvConn, ci int, r *vpC04Req, gone <-chan 
 	}
 	wire := p.Resp.wire
 	limit := len(wire)
-	if f.Kind == vpC04FaultCloseAt {
+	if f.Kind == vpC04FaultCloseAt || f.Kind == vpC04FaultHalfStall {
 		limit = f.Off
 		if limit >= len(wire) {
 			limit = len(wire) - 1
@@ -601,7 +616,7 @@ func (o *vpC04Origin) respond(s *vpC04SrvConn, ci int, r *vpC04Req, gone <-chan 
 			limit = 1
 		}
 	}
-	if f.Kind == vpC04FaultNone || f.Kind == vpC04FaultCloseAt {
+	if f.Kind == vpC04FaultNone || f.Kind == vpC04FaultCloseAt || f.Kind == vpC04FaultHalfStall {
 		s.planned.Add(int64(limit))
 	}
 	s.pending.Add(-1)
@@ -639,6 +654,11 @@ func (o *vpC04Origin) respond(s *vpC04SrvConn, ci int, r *vpC04Req, gone <-chan 
 	}
 	if f.Kind == vpC04FaultCloseAt {
 		o.hist.add("conn%d origin closes mid-response id=%d att=%d at %d/%d", ci, r.ID, att, pos, len(wire))
+		return false
+	}
+	if f.Kind == vpC04FaultHalfStall {
+		o.hist.add("conn%d origin stalls mid-response id=%d att=%d at %d/%d for %dms", ci, r.ID, att, pos, len(wire), f.StallMs)
+		o.wait(time.Duration(f.StallMs)*time.Millisecond, gone)
 		return false
 	}
 	o.hist.add("conn%d origin answered id=%d att=%d (%d bytes)", ci, r.ID, att, len(wire))
@@ -695,7 +715,7 @@ func vpC04PipelineRetired(pc *PipelineClient) bool {
 // vpC04QuiescePipeline lets the PipelineClient's workers retire: they only stop after an idle
 // period on a healthy connection, so the origin keeps answering (promptly) until they are gone.
 func vpC04QuiescePipeline(pc *PipelineClient, o *vpC04Origin, max time.Duration) bool {
-	o.drain.Store(true)
+	o.startDrain()
 	dl := time.Now().Add(max)
 	for !vpC04PipelineRetired(pc) {
 		if time.Now().After(dl) {
